@@ -253,6 +253,30 @@ def run(ctx):
                 found = True
         ctx.ob("C10.R3f", L.short(fn), found, fn.loc, "consumer does not recognise the stop marker (lowest_epoch == UINT64_MAX)")
 
+        # R3g every popped task that is not the marker is kept: the marker edge aside, no path from the element fetch to the next
+        # loop test avoids the append, and the appended value is the element fetched
+        lig = IG(fn, inline=lambda a, b, c: False)
+        llive = lig.live_nodes()
+        keeps = [n_ for n_ in lig.ev_nodes() if n_.id in llive and n_.ev["e"] == "call" and n_.ev.get("name") in ("emplace_back", "push_back") and
+                 strip_cast(n_.ev.get("this")).get("k") == "cap"]
+        fetch = [n_ for n_ in lig.ev_nodes() if n_.id in llive and
+                 ((n_.ev["e"] == "asg" and n_.ev.get("op") == "++" and strip_cast(n_.ev.get("lhs")).get("k") == "p") or
+                  (n_.ev["e"] == "call" and n_.ev.get("name") == "operator++" and strip_cast(n_.ev.get("this")).get("k") == "p"))]
+
+        def marker_edge(atom, pol, lab):
+            c_ = L.effective_cmp(atom, pol)
+            return c_ is not None and c_[0] == "==" and const_val(c_[2]) == 2**64 - 1
+        me = L.cond_edges(lig, marker_edge, llive)
+        ok = bool(keeps) and bool(fetch) and bool(me)
+        for f_ in fetch:
+            r_ = lig.reach([m for m, _ in f_.succ], removed=keeps, removed_edges=me)
+            # reaching the exit or the fetch again without an append = a task dropped
+            if lig.exit.id in r_ or f_.id in r_:
+                ok = False
+        ctx.ob("C10.R3g", L.short(fn), ok, fn.loc,
+               "a task popped from the queue that is not the stop marker must be appended to the batch on every path: a task that "
+               "is skipped has left the queue and is destroyed without its reclaimer having run", site="consume_reclaim_task@keeps-every-task")
+
     # ---------------------------------------------------------------- R4 pairing
     sites = L.queue_sites(fb, r"^babylon::GarbageCollector<.*>$")
     ctx.floor("C10.R4", len(sites), 6, "queue push/pop call sites of the collector")
